@@ -215,6 +215,9 @@ agg = z3.Function('agg', A2R, A1I, INT, INT, INT, REAL)          # agg(W, ci, a,
 tsum = z3.Function('tsum', A2R, INT, REAL)                       # sum of all entries
 trace1 = z3.Function('trace1', A2R, INT, REAL)
 sumdot = z3.Function('sumdot', A2R, A2R, INT, REAL)              # sum of all entries of the matrix product X.Y (m x m)
+walk = z3.Function('walk', A2R, INT, INT, INT, BOOL)            # walk(G, x, y, m): there is a walk of exactly m >= 1 connections from x to y in G
+sdist = z3.Function('sdist', A2R, INT, INT, INT)                 # length of a shortest walk from x to y (>= 1), 0 if there is none
+splitz = z3.Function('splitz', A2R, INT, INT, INT, INT)          # Skolem: the node reached after k steps of a shortest walk x -> y
 umul = z3.Function('umul', REAL, REAL, REAL)                     # product of two non-constant reals, uninterpreted (contracts with nonlinear='uf')
 udiv = z3.Function('udiv', REAL, REAL, REAL)                     # quotient by a non-constant real, uninterpreted
 Qrawg = z3.Function('Qrawg', A2R, A1I, REAL, REAL, INT, REAL)      # sum_{x,y same module} (M[x][y] - gamma*kout[x]*kin[y]/sd), explicit divisor sd
@@ -380,7 +383,7 @@ class Contract:
     """Sidecar contract of one function (see /verif/contracts/*.py)."""
 
     def __init__(self, module, name, params, requires=(), ensures=(), loops=None, abstract=None, ghost_after=None,
-                 ghost_before=None, notes='', ensures_raises=None, setup=None, assume_after=None, stop_at=None, key=None, nonlinear=None, fragment=None, inputs=None):
+                 ghost_before=None, notes='', ensures_raises=None, setup=None, assume_after=None, stop_at=None, key=None, nonlinear=None, fragment=None, inputs=None, dot_support=False):
         self.module, self.name, self.params = module, name, params
         self.requires, self.ensures = list(requires), list(ensures)
         self.loops = dict(loops or {})
@@ -395,6 +398,7 @@ class Contract:
         self.key = key or name
         self.nonlinear = nonlinear
         self.fragment = fragment
+        self.dot_support = dot_support
         self.inputs = inputs       # [(param, z3 const name, kind, size const)] for replaying solver counter-models on the real function
 
 
@@ -484,6 +488,8 @@ class Engine:
             return self.module_consts[node.id]
         if node.id in ('True', 'False', 'None'):
             return {'True': True, 'False': False, 'None': None}[node.id]
+        if node.id == 'INF':
+            return z3.Real('INF')
         if node.id in ('np', 'numpy'):
             return Opaque('np')
         if node.id in SPEC_BUILTINS or node.id in ('range', 'len', 'int', 'float', 'abs', 'min', 'max', 'print', 'tuple', 'isinstance', 'BCTParamError',
@@ -594,6 +600,8 @@ class Engine:
             pass
         if isinstance(op, ast.Mult) and (is_z3(a) or is_z3(b)):
             za, zb = (to_z3(a) if not isinstance(a, bool) else z3.BoolVal(a)), (to_z3(b) if not isinstance(b, bool) else z3.BoolVal(b))
+            if za.sort() == BOOL and zb.sort() == BOOL:
+                return z3.And(za, zb)
             if za.sort() == BOOL and zb.sort() != BOOL:
                 return z3.If(za, zb, to_z3(0, zb.sort()))
             if zb.sort() == BOOL and za.sort() != BOOL:
@@ -639,6 +647,9 @@ class Engine:
     def ev_Attribute(self, node, st):
         base = self.ev(node.value, st)
         if isinstance(base, Opaque) and base.kind == 'np':
+            if node.attr == 'inf':
+                # +infinity is modelled as a real constant INF about which the contract states what it needs (e.g. INF > n)
+                return z3.Real('INF')
             return Opaque('npfn', name=node.attr)
         if isinstance(base, Opaque) and base.kind == 'npfn' and base.name == 'random':
             raise OutOfSubset('np.random use')
@@ -1048,8 +1059,10 @@ class Engine:
             if v is None and nm not in st.env:
                 continue
             if isinstance(v, Ref):
-                if nm in stores:
-                    continue    # already havocked in place; rebinding of array names inside loops is handled by allocation in the body
+                # the name is re-bound in the loop body (e.g. `nPATH = np.dot(nPATH, G)`): at the head of an arbitrary iteration it
+                # denotes an arbitrary array of the same shape and element sort -- a NEW object (other names keep their objects)
+                o = st.heap[v.oid]
+                st.env[nm] = alloc(st, o.ndim, fresh('hv_' + nm, o.term.sort()), o.shape, o.esort)
                 continue
             if is_z3(v):
                 st.env[nm] = fresh('hv_' + nm, v.sort())
@@ -1348,7 +1361,10 @@ def _sb_forall(eng, st, node):
                 st.ghost[n] = saved[n]
         st.env.update(shadow)
     if pats is not None:
-        return z3.ForAll(vs, body, patterns=pats)
+        try:
+            return z3.ForAll(vs, body, patterns=pats)
+        except z3.Z3Exception:
+            pass        # e.g. the pattern contains a lambda term: let the solver infer patterns
     return z3.ForAll(vs, body)
 
 
@@ -1710,6 +1726,54 @@ def _sb_lemma_umul_linear(eng, st, node):
     return z3.And(umul(d, a) - umul(d, b) == umul(d, a - b), umul(d, 2 * a) == 2 * umul(d, a), umul(d, 2 * b) == 2 * umul(d, b), umul(d, 2 * (a - b)) == 2 * umul(d, a - b))
 
 
+def _sb_walk(eng, st, node):
+    G = _term2(eng, st, eng.ev(node.args[0], st))
+    return walk(G, *[to_z3(eng.ev(a, st), INT) for a in node.args[1:]])
+
+
+def _sb_sdist(eng, st, node):
+    G = _term2(eng, st, eng.ev(node.args[0], st))
+    return sdist(G, *[to_z3(eng.ev(a, st), INT) for a in node.args[1:]])
+
+
+def _sb_lemma_walks(eng, st, node):
+    """Code-independent facts about walks in the graph of nonzero entries of G (n nodes) and the shortest-walk length sdist
+    (Lean: walk_*): lemma_walks(G, n[, k]).
+      base:    walk(x,y,1) <-> G[x][y] != 0
+      step:    walk(x,y,m+1) <-> exists z: walk(x,z,m) and G[z][y] != 0      (witness function for ->)
+      sdist:   sdist >= 0; walk(x,y,m), m >= 1 -> 1 <= sdist(x,y) <= m;  sdist(x,y) >= 1 -> walk(x,y,sdist(x,y))
+      split (for the given k): sdist(x,y) > k >= 1 -> z = splitz(x,y,k) is a node, walk(x,z,k), sdist(z,y) >= 1 and
+               sdist(x,z) >= 1 -> sdist(x,y) <= sdist(x,z) + (sdist(x,y) - k)  -- i.e. the k-th node of a shortest walk is at distance exactly k:
+               sdist(x,z) == k unless z == x, and in that case (a closed walk) sdist(x,y) <= sdist(x,y) - k, impossible; so z != x and sdist(x,z) == k."""
+    G = _term2(eng, st, eng.ev(node.args[0], st))
+    n = to_z3(eng.ev(node.args[1], st), INT)
+    x, y, z, m = z3.Ints('x!w y!w z!w m!w')
+    inx, iny, inz = z3.And(x >= 0, x < n), z3.And(y >= 0, y < n), z3.And(z >= 0, z < n)
+    mid = z3.Function('walkmid!%d' % next(_fresh), INT, INT, INT, INT)
+    first = z3.Function('walkfirst!%d' % next(_fresh), INT, INT, INT, INT)
+    g = lambda a, b: z3.Select(z3.Select(G, a), b)
+    out = [
+        z3.ForAll([x, y], z3.Implies(z3.And(inx, iny), walk(G, x, y, 1) == (g(x, y) != 0)), patterns=[walk(G, x, y, 1)]),
+        z3.ForAll([x, y, m], z3.Implies(z3.And(inx, iny, m >= 1, walk(G, x, y, m + 1)),
+                                        z3.And(mid(x, y, m) >= 0, mid(x, y, m) < n, walk(G, x, mid(x, y, m), m), g(mid(x, y, m), y) != 0)), patterns=[walk(G, x, y, m + 1)]),
+        z3.ForAll([x, y, z, m], z3.Implies(z3.And(inx, iny, inz, m >= 1, walk(G, x, z, m), g(z, y) != 0), walk(G, x, y, m + 1)), patterns=[z3.MultiPattern(walk(G, x, z, m), g(z, y))]),
+        # the same decomposition at the first connection (prefix form)
+        z3.ForAll([x, y, m], z3.Implies(z3.And(inx, iny, m >= 1, walk(G, x, y, m + 1)),
+                                        z3.And(first(x, y, m) >= 0, first(x, y, m) < n, g(x, first(x, y, m)) != 0, walk(G, first(x, y, m), y, m))), patterns=[walk(G, x, y, m + 1)]),
+        z3.ForAll([x, y, z, m], z3.Implies(z3.And(inx, iny, inz, m >= 1, g(x, z) != 0, walk(G, z, y, m)), walk(G, x, y, m + 1)), patterns=[z3.MultiPattern(g(x, z), walk(G, z, y, m))]),
+        # a shortest walk between distinct nodes repeats no node: fewer than n connections (pigeonhole; Lean: sdist_lt_card)
+        z3.ForAll([x, y], z3.And(sdist(G, x, y) >= 0, z3.Implies(z3.And(inx, iny, x != y), sdist(G, x, y) <= n - 1)), patterns=[sdist(G, x, y)]),
+        z3.ForAll([x, y, m], z3.Implies(z3.And(inx, iny, m >= 1, walk(G, x, y, m)), z3.And(sdist(G, x, y) >= 1, sdist(G, x, y) <= m)), patterns=[walk(G, x, y, m)]),
+        z3.ForAll([x, y], z3.Implies(z3.And(inx, iny, sdist(G, x, y) >= 1), walk(G, x, y, sdist(G, x, y))), patterns=[sdist(G, x, y)]),
+    ]
+    if len(node.args) > 2:
+        k = to_z3(eng.ev(node.args[2], st), INT)
+        zz = splitz(G, x, y, k)
+        out.append(z3.ForAll([x, y], z3.Implies(z3.And(inx, iny, k >= 1, sdist(G, x, y) > k),
+                                                z3.And(zz >= 0, zz < n, zz != x, walk(G, x, zz, k), sdist(G, x, zz) == k)), patterns=[sdist(G, x, y)]))
+    return z3.And(*out)
+
+
 def _sb_same_object(eng, st, node):
     a, b = eng.ev(node.args[0], st), eng.ev(node.args[1], st)
     return isinstance(a, Ref) and isinstance(b, Ref) and a.oid == b.oid
@@ -1750,6 +1814,6 @@ SPEC_BUILTINS = {
     'dot2': _sb_dot2, 'isperm': _sb_isperm, 'same_object': _sb_same_object, 'unchanged': _sb_unchanged,
     'snapshot': _sb_snapshot, 'argref': _sb_argref, 'lam1': _sb_lam1, 'result_is_empty': _sb_result_is_empty, 'hopsint': _sb_hopsint, 'lam2': _sb_lam2, 'unique_witness': _sb_unique_witness, 'member': _sb_member, 'dset': _sb_dset(dset), 'rset': _sb_dset(rset), 'wset': _sb_dset(wset), 'cntb': _sb_cntb,
     'modsum': _mk_mod(modsum, 3), 'modsumT': _mk_mod(modsumT, 3), 'degsum': _mk_mod(degsum, 2), 'degsumT': _mk_mod(degsumT, 2), 'agg': _mk_mod(agg, 3),
-    'Qmod': _sb_Qmod, 'Qrawg': _sb_Qrawg, 'umul': _sb_umul, 'lemma_umul_linear': _sb_lemma_umul_linear, 'QrawB': _mk_mod(QrawB, 1), 'tsum': _mk_specfn(tsum, 1), 'csum': _mk_specfn(csum, 2), 'lemma_modularity': _sb_lemma_modularity, 'lemma_knm_sums': _sb_lemma_knm_sums, 'lemma_relabel': _sb_lemma_relabel, 'lemma_relabel_g': _sb_lemma_relabel_g, 'lemma_q_from_aggregate': _sb_lemma_q_from_aggregate,
+    'Qmod': _sb_Qmod, 'walk': _sb_walk, 'isint': (lambda eng, st, node: z3.IsInt(to_z3(eng.ev(node.args[0], st), REAL))), 'sdist': _sb_sdist, 'lemma_walks': _sb_lemma_walks, 'Qrawg': _sb_Qrawg, 'umul': _sb_umul, 'lemma_umul_linear': _sb_lemma_umul_linear, 'QrawB': _mk_mod(QrawB, 1), 'tsum': _mk_specfn(tsum, 1), 'csum': _mk_specfn(csum, 2), 'lemma_modularity': _sb_lemma_modularity, 'lemma_knm_sums': _sb_lemma_knm_sums, 'lemma_relabel': _sb_lemma_relabel, 'lemma_relabel_g': _sb_lemma_relabel_g, 'lemma_q_from_aggregate': _sb_lemma_q_from_aggregate,
     'lemma_masked_degree': _sb_lemma_masked_degree, 'lemma_degree_monotone': _sb_lemma_degree_monotone, 'result': _sb_result, 'raised': _sb_raised, 'shape_is': _sb_shape_is,
 }
